@@ -12,8 +12,8 @@ import (
 )
 
 type pauseCtl struct {
-	mu      sync.Mutex
-	armed   map[string]*pausePoint
+	mu    sync.Mutex
+	armed map[string]*pausePoint
 }
 
 type pausePoint struct {
